@@ -351,6 +351,27 @@ func init() {
 		return "<quoted-symbolic>"
 	})
 
+	// --- sort.Slice / sort.SliceStable: the real ones swap through reflection; stable insertion sort
+	// calling the real less closure (a symbolic comparison result forks the path) ---
+	sortSlice := func(in *Interp, fr *frame, args []Value) Value {
+		sl := args[0].(Iface).V.(Slice)
+		less := args[1]
+		n := sl.len
+		for i := 1; i < n; i++ {
+			for j := i; j > 0; j-- {
+				r := in.call(fr, 0, less, []Value{BV(64, uint64(j)), BV(64, uint64(j-1))}).(*Term)
+				if !in.ex.branch(r) {
+					break
+				}
+				a, b := sl.at(j), sl.at(j-1)
+				*a, *b = *b, *a
+			}
+		}
+		return nil
+	}
+	reg("sort.Slice", sortSlice)
+	reg("sort.SliceStable", sortSlice)
+
 	// --- errors / fmt ---
 	reg("errors.New", func(in *Interp, fr *frame, args []Value) Value { return in.mkErrorV(args[0]) })
 	reg("fmt.Errorf", func(in *Interp, fr *frame, args []Value) Value {
